@@ -1,4 +1,5 @@
 import CanVerif.Model.Runner
+import CanVerif.Model.RunGroup
 import Driver.Util
 /- Operation lines for C13 / C14: expected call traces of the runner against the step-controlled fakes. -/
 namespace Driver
@@ -28,6 +29,19 @@ def rxFrame (a : RxAcc) (idx : Nat) (tok : String) : RxAcc :=
   let a := { a with trace := a.trace ++ ["hook"] }
   let a := if id == "1" then { a with s1 := v } else { a with s2 := v }
   if fault == "H" then { a with err := some "hook-failed" } else a
+
+/-- outcome of `Run` in the group model (Model/RunGroup.lean) for a scenario: the events up to the failure or the
+cancellation, then the canonical drain (closer, receiver on the closed connection, transmitters).  By
+`C14_clean_stop` / `C14_fault_reported` the result does not depend on the schedule or the number of transmitters. -/
+def groupOutcome (ntx : Nat) (lead : List GEvent) : String :=
+  let drain : List GEvent := [.closerRuns, .recvClosed ⟨true, "use of closed network connection"⟩] ++
+    (List.range ntx).map GEvent.txDone
+  -- events that are not enabled (a goroutine that already returned) are skipped
+  let s := (lead ++ drain).foldl (fun s e => (gStep s e).getD s) (GroupSt.init ntx)
+  let res := match runResult s with
+    | none => "nil"
+    | some e => e.tag
+  s!"{res} {if s.connClosed then "conn-closed" else "conn-open"} {if s.running.isEmpty then "no-leak" else "leak"}"
 
 def opsRunner : List String → Option (String × String)
   | "rrx" :: script :: rest =>
@@ -60,11 +74,16 @@ def opsRunner : List String → Option (String × String)
     some (s!"nil viol=0 frames={",".intercalate frames}", "-")
   | ["rrun3", _] =>
     -- cancelled while a transmitter is inside its before-transmit hook: a clean stop all the same
-    some ("nil conn-closed no-leak viol=0", "-")
+    some (s!"{groupOutcome 1 [.callerCancel]} viol=0", "nil conn-closed no-leak viol=0")
   | ["rrun", mode, _] =>
-    if mode == "cancel" then some ("nil conn-closed no-leak viol=0 peer-frames=1 rx-hooks=3", "-")
+    if mode == "cancel" then
+      some (s!"{groupOutcome 1 [.callerCancel]} viol=0 peer-frames=1 rx-hooks=3", "nil conn-closed no-leak viol=0 peer-frames=1 rx-hooks=3")
     else if mode == "hookerr" || mode == "hookerr-closed" then
-      some ("hook-failed conn-closed no-leak viol=0 peer-frames=0 rx-hooks=1", "-")
+      -- the property: a failing hook makes Run return that error (whatever its text); the model follows the code
+      -- (`strings.Contains(err.Error(), "closed")`), so for hookerr-closed model and property disagree: finding F2
+      let e : GErr := ⟨mode == "hookerr-closed", "hook-failed"⟩
+      some (s!"{groupOutcome 1 [.exitErr .receiver e]} viol=0 peer-frames=0 rx-hooks=1",
+            "hook-failed conn-closed no-leak viol=0 peer-frames=0 rx-hooks=1")
     else none
   | _ => none
 
